@@ -1,4 +1,4 @@
-import HexProofs.Framework.Kinds.Extremes
+import HexProofs.Framework.Kinds.Amorph
 /-
 The leaf kinds whose contract is proved, collected under one predicate with their side
 conditions, as top-level indicators built by `mkTop`.
@@ -15,7 +15,8 @@ instance (input : String) : Decidable (AttrInput input) := by unfold AttrInput; 
 /-- **Covered kinds**: the shipped leaf kinds for which the framework contract is proved, with
 the parameter conditions the proofs need (`period ≥ 1`, resp. `≥ 0` for ROC; an ordinary
 indicator name where the recurrence reads its own previous value through a window; inputs that
-are candle attributes).  All shipped leaf classes except the `Amorph` wrapper. -/
+are candle attributes).  These are ALL shipped leaf classes: the 13 formula indicators without
+helpers and the `Amorph` wrapper of the 20 pattern / movement functions. -/
 inductive Covered (name : String) : Kind F → Prop
   | hla : Covered name .hla
   | tr : Covered name .tr
@@ -30,6 +31,7 @@ inductive Covered (name : String) : Kind F → Prop
   | hl (p : Int) : Covered name (.hl p)
   | aroon (p : Int) : 0 ≤ p → Covered name (.aroon p)
   | donchian (p : Int) : 1 ≤ p → Covered name (.donchian p)
+  | amorph (a : Analysis) : (∀ nm ∈ a.names, AttrInput nm) → Covered name (.amorph a)
 
 theorem mkTop_kind (k : Kind F) (name : String) (round : Nat) : (mkTop k name round).kind = k := by
   unfold mkTop; rfl
@@ -74,5 +76,7 @@ theorem Covered.contract {name : String} {k : Kind F} (h : Covered name k) (roun
   | hl p => exact ⟨hlContract _ p (mkTop_kind _ _ _)⟩
   | aroon p hp => exact ⟨aroonContract _ p (mkTop_kind _ _ _) hp⟩
   | donchian p hp => exact ⟨donchianContract _ p (mkTop_kind _ _ _) hp⟩
+  | amorph a ha =>
+    exact ⟨amorphContract _ a (mkTop_kind _ _ _) (fun nm hnm => indepP_attr _ nm (ha nm hnm).1 (ha nm hnm).2)⟩
 
 end Hex
